@@ -37,7 +37,7 @@ package cloudprovider
 //@   modifies Jlen, Jkind, Jname, Jnode, Jok
 //@   ensures Jlen == old(Jlen) + len(nodes)
 //@   ensures forall i :: 0 <= i && i < len(nodes) ==> Jkind[old(Jlen) + i] == C_DELNODE && Jnode[old(Jlen) + i] == nodes[i] && Jname[old(Jlen) + i] == nodes[i].Name && Jok[old(Jlen) + i] == (err == nil)
-//@   ensures forall k :: 0 <= k && k < old(Jlen) ==> Jkind[k] == old(Jkind)[k] && Jname[k] == old(Jname)[k] && Jok[k] == old(Jok)[k] && Jnode[k] == old(Jnode)[k]
+//@   ensures forall k :: k < old(Jlen) ==> Jkind[k] == old(Jkind)[k] && Jname[k] == old(Jname)[k] && Jok[k] == old(Jok)[k] && Jnode[k] == old(Jnode)[k]
 //@   ensures isNotInGroup(err) ==> err != nil
 
 //@ spec isNotInGroup(e error) bool = typeis(e, "*NodeNotInNodeGroup")
